@@ -147,8 +147,7 @@ def run(tier, seed):
         for _ in range(k):
             x1, z1, th = r.flt(), r.flt(), r.flt()
             mpts.append((x1, z1))
-        # the code returns None for rays that leave through the bottom or end inside the last (buffer) layer,
-        # and the partial accumulation for a ray stopped at a critical angle
+        # the code returns None for rays that leave through the bottom, and the partial accumulation for a ray stopped at a critical angle
         expect_none = (status == "exited") or (status == "reached" and not reported)
         ok = expect_none == (tt is None)
         if ok and not expect_none:
@@ -162,38 +161,55 @@ def run(tier, seed):
                "receiver reported as converged (non-NaN solved angle) has the straight-line travel time within tolerance/velocity; non-trivial = >= 3 layers")
     from hmclab.Distributions import LayeredRayTracing2D
 
-    for _ in range(30 if thorough else 8):
-        n = rnd.choice([2, 3, 4, 6])
-        thick = [rnd.choice([100.0, 150.0, 250.0]) for _ in range(n)]
-        inter = np.cumsum(thick)
-        v = rnd.choice([1500.0, 2000.0, 3300.0])
-        xr = rnd.choice([100.0, 200.0, 350.0])
-        nrec = rnd.choice([3, 5, 8])
-        top_last = inter[-2]
-        rz = np.linspace(0.15 * top_last, 0.95 * top_last, nrec)
-        stim = {"interfaces": inter.tolist(), "velocity": v, "xr": xr, "receivers": rz.tolist()}
-        sf.case(stim, nontrivial=n >= 3, sample=stim if len(sf.samples) < 2 else None)
-        np.random.seed(rnd.randrange(1 << 30))
-        try:
-            with quiet(), np.errstate(all="ignore"):
-                obj = LayeredRayTracing2D(inter, np.array([xr]), rz)
-                obj.parallel = False
-                tts = np.array(obj.forward(np.ones(n) * v), dtype=float)
-                angles = np.array(obj.solved_angles, dtype=float)
-        except Exception as e:
-            sf.disagree(stim, "forward() runs", repr(e), "forward() raised on the installed NumPy")
-            findings.append(Finding("C18", f"LayeredRayTracing2D.forward raised {e!r}", {"kind": "forward-raise", "exception": type(e).__name__},
-                                    {"oracle": "forward", "stimulus": stim, "exception": repr(e)}))
-            continue
-        straight = np.sqrt(xr ** 2 + rz ** 2) / v
-        conv = ~np.isnan(angles)
-        sf.count(f"converged={int(conv.sum())}/{nrec}")
-        bad = [i for i in range(nrec) if conv[i] and not abs(tts[i] - straight[i]) <= obj.tolerance / v * (1 + 1e-9)]
-        if bad:
-            i = bad[0]
-            sf.disagree(stim, float(straight[i]), float(tts[i]), f"receiver {i}: travel time off by more than tolerance/velocity")
-            findings.append(Finding("C18", f"homogeneous medium: converged receiver {i} has travel time {tts[i]!r}, straight line {straight[i]!r}, tolerance/v {obj.tolerance / v!r}",
-                                    {"kind": "forward-bound"}, {"oracle": "forward", "stimulus": stim}))
+    from ..parallel import supervised
+    from ..probes import scratch
+
+    def forward_job(inter, xr, rz, v, n, gseed):
+        np.random.seed(gseed)
+        obj = LayeredRayTracing2D(inter, np.array([xr]), rz)
+        obj.parallel = False
+        tts = np.array(obj.forward(np.ones(n) * v), dtype=float)
+        return tts, np.array(obj.solved_angles, dtype=float), float(obj.tolerance)
+
+    with scratch() as tmp:
+        for _ in range(30 if thorough else 8):
+            n = rnd.choice([1, 2, 3, 4, 6])
+            thick = [rnd.choice([100.0, 150.0, 250.0]) for _ in range(n)]
+            inter = np.cumsum(thick)
+            v = rnd.choice([1500.0, 2000.0, 3300.0])
+            xr = rnd.choice([100.0, 200.0, 350.0])
+            nrec = rnd.choice([1, 3, 5, 8])
+            # receivers anywhere above the last interface (the constructor's own condition), the deepest layer included; in any order
+            rz = np.linspace(0.15 * inter[-1], 0.95 * inter[-1], nrec) if nrec > 1 else np.array([rnd.uniform(0.3, 0.9) * inter[-1]])
+            order = rnd.choice(["shallowest first", "shallowest first", "deepest first", "shuffled"]) if nrec > 1 else "single"
+            if order == "deepest first":
+                rz = rz[::-1].copy()
+            elif order == "shuffled":
+                rz = np.array(rnd.sample(rz.tolist(), nrec))
+            stim = {"interfaces": inter.tolist(), "velocity": v, "xr": xr, "receivers": rz.tolist(), "order": order}
+            sf.case(stim, nontrivial=n >= 3, sample=stim if len(sf.samples) < 2 else None)
+            sf.count(f"receivers {order}")
+            sf.count("receivers in the deepest layer" if (n == 1 or np.any(rz > inter[-2])) else "receivers above the deepest layer")
+            status, res = supervised(forward_job, (inter, xr, rz, v, n, rnd.randrange(1 << 30)), timeout=120, tmpdir=tmp)
+            if status != "ok":
+                what = "did not return within 120 s" if status == "timeout" else f"raised {str(res)[:200]}"
+                sf.disagree(stim, "forward() runs", what, "forward() on the installed NumPy")
+                findings.append(Finding("C18", f"LayeredRayTracing2D.forward {what} (homogeneous medium, {n} layers, receivers {order})",
+                                        {"kind": "forward-raise", "exception": status if status == "timeout" else str(res).split("(")[0][:30]},
+                                        {"oracle": "forward", "stimulus": stim, "exception": str(res)[:600]}))
+                continue
+            tts, angles, tol = res
+            straight = np.sqrt(xr ** 2 + rz ** 2) / v
+            conv = ~np.isnan(angles)
+            sf.count(f"converged={int(conv.sum())}/{nrec}")
+            bad = [i for i in range(nrec) if conv[i] and not abs(tts[i] - straight[i]) <= abs(tol) / v * (1 + 1e-9)]
+            if not (tol > 0):
+                bad = bad or [0]
+            if bad:
+                i = bad[0]
+                sf.disagree(stim, float(straight[i]), float(tts[i]), f"receiver {i}: travel time off by more than tolerance/velocity")
+                findings.append(Finding("C18", f"homogeneous medium: converged receiver {i} (depth {float(rz[i])!r}) has travel time {float(tts[i])!r}, straight line {float(straight[i])!r}, tolerance/v {tol / v!r}",
+                                        {"kind": "forward-bound"}, {"oracle": "forward", "stimulus": stim}))
     return [st, sf], findings
 
 
